@@ -752,7 +752,7 @@ DLLIMPORT int cfg_parse_boolean(const char *s)
 	return CFG_FAIL;
 }
 
-static void cfg_init_defaults(cfg_t *cfg)
+static int cfg_init_defaults(cfg_t *cfg)
 {
 	int i;
 
@@ -832,31 +832,33 @@ static void cfg_init_defaults(cfg_t *cfg)
 					/*
 					 * If there was an error parsing the default string,
 					 * the initialization of the default value could be
-					 * inconsistent or empty. What to do? It's a
-					 * programming error and not an end user input
-					 * error. Lets print a message and abort...
+					 * inconsistent or empty.  It's a programming error
+					 * (or we ran out of memory) and not an end user input
+					 * error: print a message and fail the initialization.
 					 */
 					fprintf(stderr, "Parse error in default value '%s'"
 						" for option '%s'\n", cfg->opts[i].def.parsed, cfg->opts[i].name);
 					fprintf(stderr, "Check your initialization macros and the" " libConfuse documentation\n");
-					abort();
+					return CFG_FAIL;
 				}
 			} else {
+				int rc = CFG_SUCCESS;
+
 				switch (cfg->opts[i].type) {
 				case CFGT_INT:
-					cfg_opt_setnint(&cfg->opts[i], cfg->opts[i].def.number, 0);
+					rc = cfg_opt_setnint(&cfg->opts[i], cfg->opts[i].def.number, 0);
 					break;
 
 				case CFGT_FLOAT:
-					cfg_opt_setnfloat(&cfg->opts[i], cfg->opts[i].def.fpnumber, 0);
+					rc = cfg_opt_setnfloat(&cfg->opts[i], cfg->opts[i].def.fpnumber, 0);
 					break;
 
 				case CFGT_BOOL:
-					cfg_opt_setnbool(&cfg->opts[i], cfg->opts[i].def.boolean, 0);
+					rc = cfg_opt_setnbool(&cfg->opts[i], cfg->opts[i].def.boolean, 0);
 					break;
 
 				case CFGT_STR:
-					cfg_opt_setnstr(&cfg->opts[i], cfg->opts[i].def.string, 0);
+					rc = cfg_opt_setnstr(&cfg->opts[i], cfg->opts[i].def.string, 0);
 					break;
 
 				case CFGT_FUNC:
@@ -867,6 +869,8 @@ static void cfg_init_defaults(cfg_t *cfg)
 					cfg_error(cfg, "internal error in cfg_init_defaults(%s)", cfg->opts[i].name);
 					break;
 				}
+				if (rc != CFG_SUCCESS)
+					return CFG_FAIL;
 			}
 
 			/* The default value should only be returned if no value
@@ -877,15 +881,50 @@ static void cfg_init_defaults(cfg_t *cfg)
 			cfg->opts[i].flags |= CFGF_RESET;
 			cfg->opts[i].flags &= ~CFGF_MODIFIED;
 		} else if (!is_set(CFGF_MULTI, cfg->opts[i].flags)) {
-			cfg_setopt(cfg, &cfg->opts[i], NULL);
+			if (!cfg_setopt(cfg, &cfg->opts[i], NULL))
+				return CFG_FAIL;
 			cfg->opts[i].flags |= CFGF_DEFINIT;
 		}
 	}
+
+	return CFG_SUCCESS;
+}
+
+/* a new, not yet initialized instance of section option opt in context cfg */
+static cfg_t *cfg_new_section(cfg_t *cfg, cfg_opt_t *opt, const char *title)
+{
+	cfg_t *sec = calloc(1, sizeof(cfg_t));
+
+	if (!sec)
+		return NULL;
+
+	sec->name = strdup(opt->name);
+	sec->filename = cfg->filename ? strdup(cfg->filename) : NULL;
+	sec->title = title ? strdup(title) : NULL;
+	sec->opts = cfg_dupopt_array(opt->subopts);
+	if (!sec->name || (cfg->filename && !sec->filename) || (title && !sec->title) || !sec->opts) {
+		if (sec->opts)
+			cfg_free_opt_array(sec->opts);
+		free(sec->title);
+		free(sec->filename);
+		free(sec->name);
+		free(sec);
+		return NULL;
+	}
+
+	sec->flags = cfg->flags;
+	if (is_set(CFGF_KEYSTRVAL, opt->flags))
+		sec->flags |= CFGF_KEYSTRVAL;
+	sec->line = cfg->line;
+	sec->errfunc = cfg->errfunc;
+
+	return sec;
 }
 
 DLLIMPORT cfg_value_t *cfg_setopt(cfg_t *cfg, cfg_opt_t *opt, const char *value)
 {
 	cfg_value_t *val = NULL;
+	int added = 0;
 	int b;
 	const char *s;
 	double f;
@@ -1075,6 +1114,7 @@ DLLIMPORT cfg_value_t *cfg_setopt(cfg_t *cfg, cfg_opt_t *opt, const char *value)
 				val = cfg_addval(opt);
 				if (!val)
 					return NULL;
+				added = 1;
 			}
 		} else {
 			val = opt->values[0];
@@ -1099,54 +1139,27 @@ DLLIMPORT cfg_value_t *cfg_setopt(cfg_t *cfg, cfg_opt_t *opt, const char *value)
 
 	case CFGT_SEC:
 		if (is_set(CFGF_MULTI, opt->flags) || val->section == NULL) {
+			/* build the new section completely before it becomes reachable */
+			cfg_t *sec = cfg_new_section(cfg, opt, value);
+
+			if (sec && !is_set(CFGF_DEFINIT, opt->flags) && cfg_init_defaults(sec) != CFG_SUCCESS) {
+				cfg_free(sec);
+				sec = NULL;
+			}
+			if (!sec) {
+				if (added)	/* give the value slot acquired above back */
+					free(opt->values[--opt->nvalues]);
+				return NULL;
+			}
 			if (val->section) {
 				val->section->path = NULL; /* Global search path */
 				cfg_free(val->section);
 			}
-			val->section = calloc(1, sizeof(cfg_t));
-			if (!val->section)
+			val->section = sec;
+		} else if (!is_set(CFGF_DEFINIT, opt->flags)) {
+			if (cfg_init_defaults(val->section) != CFG_SUCCESS)
 				return NULL;
-
-			val->section->name = strdup(opt->name);
-			if (!val->section->name) {
-				free(val->section);
-				return NULL;
-			}
-
-			val->section->flags = cfg->flags;
-			if (is_set(CFGF_KEYSTRVAL, opt->flags))
-				val->section->flags |= CFGF_KEYSTRVAL;
-
-			val->section->filename = cfg->filename ? strdup(cfg->filename) : NULL;
-			if (cfg->filename && !val->section->filename) {
-				free(val->section->name);
-				free(val->section);
-				return NULL;
-			}
-
-			val->section->line = cfg->line;
-			val->section->errfunc = cfg->errfunc;
-			val->section->title = value ? strdup(value) : NULL;
-			if (value && !val->section->title) {
-				free(val->section->filename);
-				free(val->section->name);
-				free(val->section);
-				return NULL;
-			}
-
-			val->section->opts = cfg_dupopt_array(opt->subopts);
-			if (!val->section->opts) {
-				if (val->section->title)
-					free(val->section->title);
-				if (val->section->filename)
-					free(val->section->filename);
-				free(val->section->name);
-				free(val->section);
-				return NULL;
-			}
 		}
-		if (!is_set(CFGF_DEFINIT, opt->flags))
-			cfg_init_defaults(val->section);
 		break;
 
 	case CFGT_BOOL:
@@ -1961,7 +1974,10 @@ DLLIMPORT cfg_t *cfg_init(cfg_opt_t *opts, cfg_flag_t flags)
 	bindtextdomain(PACKAGE, LOCALEDIR);
 #endif
 
-	cfg_init_defaults(cfg);
+	if (cfg_init_defaults(cfg) != CFG_SUCCESS) {
+		cfg_free(cfg);
+		return NULL;
+	}
 
 	return cfg;
 }
